@@ -256,6 +256,9 @@ mod test_helpers;
 pub mod track;
 mod tween;
 mod value;
+#[cfg(kira_verif)]
+#[doc(hidden)]
+pub mod verif;
 
 pub use backend::DefaultBackend;
 pub use decibels::*;
